@@ -7,13 +7,22 @@ frame) is built with the real ``darsia.Patches`` and compared with a boring refe
   or a re-assembled image says which base voxel every entry came from;
 * tiling: the interiors (``relative_rois_without_overlap`` mapped through ``rois`` to global
   indices) are counted voxel by voxel on an integer cover array -- every voxel exactly once;
+  ``assemble().img`` must equal the base array (and leave the base untouched);
 * patch data: ``Patches(i, j).img`` is the base array at ``rois[i][j]`` and its interior is
   the base array inside ``global_corners_voxels[i, j]`` (which must be a box in the
-  documented corner order top-left, bottom-left, bottom-right, top-right);
+  documented corner order top-left, bottom-left, bottom-right, top-right); a non-empty
+  patch image sits where its voxels are (origin = coordinate of the first voxel of its roi,
+  dimensions = extent of the voxels it holds; own cells ``C19/patch-placement/*``);
 * coordinates: the only hard-coded knowledge is the 2-D affine convention of DESIGN C01
   (``x = ox + col * vx``, ``y = oy - row * vy``), written out here; voxel and metric corners
   / centres must be images of each other under that map (and, for frames with exactly
-  representable voxel sizes, under ``base.coordinatesystem.voxel`` with ``==``).
+  representable voxel sizes, under ``base.coordinatesystem.voxel`` with ``==``); a centre is
+  the midpoint of its corners and lies inside its voxel box.
+
+Cells: ``C19/<clause>/<divisible | non-divisible | degenerate>/...`` where the class is
+computed from integers only (degenerate = the smallest uniform covering leaves a patch
+empty, e.g. more patches than voxels); voxel-level clauses add ``ov=0 | ov>0`` and
+``exact | float`` (frame arithmetic), metric clauses add the frame name.
 """
 
 from __future__ import annotations
